@@ -166,13 +166,19 @@ def topoLoop : List Dev → List Dev → Outcome Err (List Dev)
 
 theorem shape_index (d : Dev) : d.shape.index = d.index := rfl
 
+theorem hasFreeDownstream_shape (p : Ports) : p.shape.hasFreeDownstream = p.hasFreeDownstream := by
+  unfold Ports.hasFreeDownstream
+  rw [activePorts_shape, List.filter_map, List.length_map]
+  rfl
+
 theorem findJunction_shape (l : List Dev) : findJunction (l.map Dev.shape) = findJunction l := by
   induction l with
   | nil => rfl
   | cons d ds ih =>
     simp only [List.map_cons, findJunction]
     have : d.shape.ports.topology = d.ports.topology := topology_shape d.ports
-    rw [this, ih]
+    have hf : d.shape.ports.hasFreeDownstream = d.ports.hasFreeDownstream := hasFreeDownstream_shape d.ports
+    rw [this, hf, ih]
     rfl
 
 theorem findParent_shape (ps : List Dev) : findParent (ps.map Dev.shape) = findParent ps := by
@@ -425,27 +431,70 @@ theorem rootPorts_open (c3 c1 c2 : Tree) (d1 d2 d3 : Option Nat) :
   cases x3 <;> cases x1 <;> cases x2 <;>
     simp [Ports.openPorts, Ports.activePorts, Ports.indexed]
 
-/-- Every device of a junction-free tree is a line end or a passthrough. -/
-def Leafy (d : Dev) : Prop := d.ports.topology = .ok .lineEnd ∨ d.ports.topology = .ok .passthrough
+theorem rootPorts_topology (c3 c1 c2 : Tree) (d1 d2 d3 : Option Nat) :
+    ∃ t, (rootPorts c3 c1 c2 d1 d2 d3).topology = .ok t ∧
+      (2 ≤ 1 + c3.isNode.toNat + c1.isNode.toNat + c2.isNode.toNat → t ≠ .lineEnd) ∧
+      (3 ≤ 1 + c3.isNode.toNat + c1.isNode.toNat + c2.isNode.toNat → t.isJunction = true) := by
+  unfold Ports.topology
+  rw [rootPorts_open]
+  generalize c3.isNode = x3
+  generalize c1.isNode = x1
+  generalize c2.isNode = x2
+  cases x3 <;> cases x1 <;> cases x2 <;> simp [Topology.isJunction]
 
-theorem expected_leafy (T : Tree) : NoJunction T → ∀ b par, ∀ d ∈ expected T b par, Leafy d := by
+/-- The junction search of `find_subdevice_parent` walks past such a device: it is not a junction,
+    or none of its downstream ports is free any more. -/
+def Closed (d : Dev) : Prop :=
+  ∃ t, d.ports.topology = .ok t ∧ (t.isJunction && d.ports.hasFreeDownstream) = false
+
+/-- A device all of whose plugged downstream ports carry their device has no free downstream port:
+    only the entry port is unassigned. -/
+theorem rootPorts_full (c3 c1 c2 : Tree) (v3 v1 v2 : Nat) :
+    (rootPorts c3 c1 c2 (if c3.isNode then some v3 else none) (if c1.isNode then some v1 else none)
+      (if c2.isNode then some v2 else none)).hasFreeDownstream = false := by
+  unfold rootPorts
+  generalize c3.isNode = x3
+  generalize c1.isNode = x1
+  generalize c2.isNode = x2
+  cases x3 <;> cases x1 <;> cases x2 <;>
+    simp [Ports.hasFreeDownstream, Ports.activePorts, Ports.indexed]
+
+/-- While the branch on port 1 (resp. 2) is still to come, the device has a free downstream port. -/
+theorem rootPorts_free1 (c3 c1 c2 : Tree) (d1 : Option Nat) (h1 : c1.isNode = true) :
+    (rootPorts c3 c1 c2 d1 none none).hasFreeDownstream = true := by
+  unfold rootPorts
+  rw [h1]
+  generalize c3.isNode = x3
+  generalize c2.isNode = x2
+  cases x3 <;> cases x2 <;> cases d1 <;>
+    simp [Ports.hasFreeDownstream, Ports.activePorts, Ports.indexed]
+
+theorem rootPorts_free2 (c3 c1 c2 : Tree) (d1 d2 : Option Nat) (h2 : c2.isNode = true) :
+    (rootPorts c3 c1 c2 d1 d2 none).hasFreeDownstream = true := by
+  unfold rootPorts
+  rw [h2]
+  generalize c3.isNode = x3
+  generalize c1.isNode = x1
+  cases x3 <;> cases x1 <;> cases d1 <;> cases d2 <;>
+    simp [Ports.hasFreeDownstream, Ports.activePorts, Ports.indexed]
+
+/-- Every device of a COMPLETELY processed subtree — whatever its shape — is closed: the junctions
+    among them are exactly those that are not ancestors of the next device's attachment point. -/
+theorem expected_closed (T : Tree) : ∀ b par, ∀ d ∈ expected T b par, Closed d := by
   induction T with
-  | none => intro _ b par d hd; simp [expected] at hd
+  | none => intro b par d hd; simp [expected] at hd
   | node p c3 c1 c2 ih3 ih1 ih2 =>
-    intro hn b par d hd
-    rcases hn with ⟨hk, h3, h1, h2⟩
+    intro b par d hd
     simp only [expected, List.mem_cons, List.mem_append] at hd
     rcases hd with rfl | (hd | hd) | hd
-    · unfold Leafy Ports.topology
-      simp only [rootPorts_open]
-      revert hk
-      generalize c3.isNode = x3
-      generalize c1.isNode = x1
-      generalize c2.isNode = x2
-      cases x3 <;> cases x1 <;> cases x2 <;> simp
-    · exact ih3 h3 _ _ d hd
-    · exact ih1 h1 _ _ d hd
-    · exact ih2 h2 _ _ d hd
+    · rcases rootPorts_topology c3 c1 c2 (if c3.isNode then some (b + 1) else none)
+        (if c1.isNode then some (b + 1 + c3.size) else none)
+        (if c2.isNode then some (b + 1 + c3.size + c1.size) else none) with ⟨t, ht, _, _⟩
+      refine ⟨t, ht, ?_⟩
+      simp only [rootPorts_full, Bool.and_false]
+    · exact ih3 _ _ d hd
+    · exact ih1 _ _ d hd
+    · exact ih2 _ _ d hd
 
 /-- The last device in frame order of a non-empty tree is a line end. -/
 theorem expected_last (T : Tree) : T.isNode = true → ∀ b par, ∃ d, (expected T b par).getLast? = some d ∧
@@ -488,14 +537,15 @@ theorem expected_last (T : Tree) : T.isNode = true → ∀ b par, ∃ d, (expect
           simp [Ports.topology, rootPorts_open, Tree.isNode]
 
 
-theorem findJunction_skip (l more : List Dev) (h : ∀ d ∈ l, Leafy d) :
+theorem findJunction_skip (l more : List Dev) (h : ∀ d ∈ l, Closed d) :
     findJunction (l ++ more) = findJunction more := by
   induction l with
   | nil => rfl
   | cons d ds ih =>
     have ih' := ih (fun x hx => h x (List.mem_cons_of_mem _ hx))
-    simp only [List.cons_append, findJunction]
-    rcases h d (List.mem_cons_self ..) with ht | ht <;> rw [ht] <;> simp [Topology.isJunction, ih']
+    rcases h d (List.mem_cons_self ..) with ⟨t, ht, hc⟩
+    simp only [List.cons_append, findJunction, ht, hc, ih']
+    simp
 
 theorem findParent_last_nonleaf (pre : List Dev) (nd : Dev) (t : Topology)
     (ht : nd.ports.topology = .ok t) (hne : t ≠ .lineEnd) :
@@ -505,9 +555,10 @@ theorem findParent_last_nonleaf (pre : List Dev) (nd : Dev) (t : Topology)
   rw [ht]
   cases t <;> first | rfl | exact absurd rfl hne
 
-theorem findParent_after_leafy (pre : List Dev) (nd : Dev) (D : List Dev) (last : Dev) (t : Topology)
+theorem findParent_after_closed (pre : List Dev) (nd : Dev) (D : List Dev) (last : Dev) (t : Topology)
     (hlast : D.getLast? = some last) (hl : last.ports.topology = .ok .lineEnd)
-    (hD : ∀ d ∈ D, Leafy d) (ht : nd.ports.topology = .ok t) (hj : t.isJunction = true) :
+    (hD : ∀ d ∈ D, Closed d) (ht : nd.ports.topology = .ok t)
+    (hj : (t.isJunction && nd.ports.hasFreeDownstream) = true) :
     findParent (pre ++ [nd] ++ D) = .ok (some nd.index) := by
   rcases List.getLast?_eq_some_iff.1 hlast with ⟨D', rfl⟩
   unfold findParent
@@ -627,8 +678,9 @@ theorem rootDevOf_parent (T : Tree) (b : Nat) (par : Option Nat) :
 theorem rootDevOf_index (T : Tree) (b : Nat) (par : Option Nat) : (rootDevOf T b par).index = b := by
   cases T <;> rfl
 
-/-- The statement proved by induction over the tree: once the root of a subtree has been appended
-    (with its parent recorded), processing all its descendants yields exactly the wiring. -/
+/-- The statement proved by induction over the tree (any shape): once the root of a subtree has been
+    appended to ANY processed prefix (with its parent recorded), processing all its descendants
+    yields exactly the wiring of the subtree and leaves the prefix untouched. -/
 def Processes (T : Tree) : Prop :=
   ∀ (pre rest : List Dev) (par : Option Nat), Indexed 0 pre →
     topoLoop (pre ++ [rootDevOf T pre.length par]) (kidsOf T pre.length ++ rest)
@@ -671,49 +723,32 @@ theorem tree_none_of_not_node (T : Tree) (h : ¬ T.isNode = true) : T = .none :=
   | none => rfl
   | node _ _ _ _ => simp [Tree.isNode] at h
 
-theorem noJunction_of (c : Tree) (h : c.isNode = true → NoJunction c) : NoJunction c := by
-  by_cases hc : c.isNode = true
-  · exact h hc
-  · rw [tree_none_of_not_node c hc]; trivial
-
 theorem rootPorts_entryZero (c3 c1 c2 : Tree) (d1 d2 d3 : Option Nat) : EntryZero (rootPorts c3 c1 c2 d1 d2 d3) := by
   refine ⟨rfl, ?_⟩
   intro q _ _
   simp [rootPorts]
 
-theorem rootPorts_topology (c3 c1 c2 : Tree) (d1 d2 d3 : Option Nat) :
-    ∃ t, (rootPorts c3 c1 c2 d1 d2 d3).topology = .ok t ∧
-      (2 ≤ 1 + c3.isNode.toNat + c1.isNode.toNat + c2.isNode.toNat → t ≠ .lineEnd) ∧
-      (3 ≤ 1 + c3.isNode.toNat + c1.isNode.toNat + c2.isNode.toNat → t.isJunction = true) := by
-  unfold Ports.topology
-  rw [rootPorts_open]
-  generalize c3.isNode = x3
-  generalize c1.isNode = x1
-  generalize c2.isNode = x2
-  cases x3 <;> cases x1 <;> cases x2 <;> simp [Topology.isJunction]
-
 /-- Parent search for the next child of `nd`, after the complete earlier branches `D`. -/
 theorem findParent_phase (pre D : List Dev) (nd : Dev) (t : Topology)
-    (ht : nd.ports.topology = .ok t) (hD : ∀ d ∈ D, Leafy d)
+    (ht : nd.ports.topology = .ok t) (hD : ∀ d ∈ D, Closed d)
     (h0 : D = [] → t ≠ .lineEnd)
-    (h1 : D ≠ [] → t.isJunction = true ∧ ∃ last, D.getLast? = some last ∧ last.ports.topology = .ok .lineEnd) :
+    (h1 : D ≠ [] → (t.isJunction && nd.ports.hasFreeDownstream) = true ∧
+      ∃ last, D.getLast? = some last ∧ last.ports.topology = .ok .lineEnd) :
     findParent (pre ++ [nd] ++ D) = .ok (some nd.index) := by
   by_cases hd : D = []
   · subst hd
     simpa using findParent_last_nonleaf pre nd t ht (h0 rfl)
   · rcases h1 hd with ⟨hj, last, hl, hlt⟩
-    exact findParent_after_leafy pre nd D last t hl hlt hD ht hj
+    exact findParent_after_closed pre nd D last t hl hlt hD ht hj
 
 theorem getLast_append_right {α : Type} (l1 l2 : List α) (x : α) (h : l2.getLast? = some x) :
     (l1 ++ l2).getLast? = some x := by
   rw [List.getLast?_append, h]; rfl
 
 theorem process_node (p : Params) (c3 c1 c2 : Tree)
-    (ih3 : c3.isNode = true → NoNestedJunction c3 → Processes c3)
-    (ih1 : c1.isNode = true → NoNestedJunction c1 → Processes c1)
-    (ih2 : c2.isNode = true → NoNestedJunction c2 → Processes c2)
-    (hn : NoNestedJunction (.node p c3 c1 c2)) : Processes (.node p c3 c1 c2) := by
-  rcases hn with ⟨n3, n1, n2, hj3, hj1⟩
+    (ih3 : c3.isNode = true → Processes c3)
+    (ih1 : c1.isNode = true → Processes c1)
+    (ih2 : c2.isNode = true → Processes c2) : Processes (.node p c3 c1 c2) := by
   intro pre rest par hidx
   -- abbreviations
   generalize hb : pre.length = b
@@ -739,18 +774,16 @@ theorem process_node (p : Params) (c3 c1 c2 : Tree)
   have hD1idx : Indexed (b + 1) D1 := expected_indexed _ _ _
   have hD2idx : Indexed (b + 1) D2 := by
     rw [indexed_append]; exact ⟨hD1idx, by rw [hD1len]; exact expected_indexed _ _ _⟩
-  have hleafy3 : (c1.isNode = true ∨ c2.isNode = true) → ∀ d ∈ D1, Leafy d := by
-    intro h12 d hd
-    exact expected_leafy c3 (noJunction_of c3 (fun h3 => hj3 h3 h12)) _ _ d hd
-  have hleafy1 : c2.isNode = true → ∀ d ∈ expected c1 (b + 1 + c3.size) (some b), Leafy d := by
-    intro h2 d hd
-    exact expected_leafy c1 (noJunction_of c1 (fun h1 => hj1 h1 h2)) _ _ d hd
+  -- the completed branches, whatever their shape, contain no junction with a free downstream port
+  have hclosed3 : ∀ d ∈ D1, Closed d := fun d hd => expected_closed c3 _ _ d hd
+  have hclosed1 : ∀ d ∈ expected c1 (b + 1 + c3.size) (some b), Closed d :=
+    fun d hd => expected_closed c1 _ _ d hd
   have hz : ∀ d1 d2 d3, EntryZero (rootPorts c3 c1 c2 d1 d2 d3) := rootPorts_entryZero c3 c1 c2
   -- phase 1: the branch on port 3
   have P1 : topoLoop (pre ++ [nd0]) (shapeOf c3 (b + 1) ++ R1) = topoLoop (pre ++ [nd1] ++ D1) R1 := by
     by_cases h3 : c3.isNode = true
     · rcases rootPorts_topology c3 c1 c2 none none none with ⟨t, ht, htl, _⟩
-      have := child_phase c3 h3 (ih3 h3 n3) pre [] nd0 1 (b + 1) R1
+      have := child_phase c3 h3 (ih3 h3) pre [] nd0 1 (b + 1) R1
         (hidxnd nd0 rfl [] (by simp [Indexed])) (by simp [hb]) (hz _ _ _)
         (Or.inl ⟨rfl, h3, rfl⟩)
         (findParent_phase pre [] nd0 t ht (by simp) (fun _ => htl (by simp [h3] <;> omega)) (fun h => absurd rfl h))
@@ -766,17 +799,17 @@ theorem process_node (p : Params) (c3 c1 c2 : Tree)
     by_cases h1 : c1.isNode = true
     · rcases rootPorts_topology c3 c1 c2 e3 none none with ⟨t, ht, htl, htj⟩
       have hfp : findParent (pre ++ [nd1] ++ D1) = .ok (some nd1.index) := by
-        apply findParent_phase pre D1 nd1 t ht (hleafy3 (Or.inl h1))
+        apply findParent_phase pre D1 nd1 t ht hclosed3
         · intro _; exact htl (by simp [h1] <;> omega)
         · intro hne
           have h3 : c3.isNode = true := by
             apply Classical.byContradiction
             intro h3
             exact hne (by simp [D1, tree_none_of_not_node c3 h3, expected])
-          refine ⟨htj (by simp [h1, h3]), ?_⟩
+          refine ⟨by rw [htj (by simp [h1, h3]), rootPorts_free1 c3 c1 c2 e3 h1]; rfl, ?_⟩
           rcases expected_last c3 h3 (b + 1) (some b) with ⟨last, hl, hlt⟩
           exact ⟨last, hl, hlt⟩
-      have := child_phase c1 h1 (ih1 h1 n1) pre D1 nd1 2 (b + 1 + c3.size) R2
+      have := child_phase c1 h1 (ih1 h1) pre D1 nd1 2 (b + 1 + c3.size) R2
         (hidxnd nd1 rfl D1 hD1idx) (by simp [hb, hD1len] <;> omega) (hz _ _ _)
         (Or.inr (Or.inl ⟨rfl, h1, rfl, fun h3 => by
           have h3' : c3.isNode = true := h3
@@ -797,12 +830,12 @@ theorem process_node (p : Params) (c3 c1 c2 : Tree)
         apply findParent_phase pre D2 nd2 t ht
         · intro d hd
           rcases List.mem_append.1 hd with hd | hd
-          · exact hleafy3 (Or.inr h2) d hd
-          · exact hleafy1 h2 d hd
+          · exact hclosed3 d hd
+          · exact hclosed1 d hd
         · intro _; exact htl (by simp [h2] <;> omega)
         · intro hne
           by_cases h1 : c1.isNode = true
-          · refine ⟨htj (by simp [h1, h2] <;> omega), ?_⟩
+          · refine ⟨by rw [htj (by simp [h1, h2] <;> omega), rootPorts_free2 c3 c1 c2 e3 e1 h2]; rfl, ?_⟩
             rcases expected_last c1 h1 (b + 1 + c3.size) (some b) with ⟨last, hl, hlt⟩
             exact ⟨last, getLast_append_right _ _ _ hl, hlt⟩
           · have e : c1 = .none := tree_none_of_not_node c1 h1
@@ -810,10 +843,10 @@ theorem process_node (p : Params) (c3 c1 c2 : Tree)
               apply Classical.byContradiction
               intro h3
               exact hne (by simp [D2, D1, e, tree_none_of_not_node c3 h3, expected])
-            refine ⟨htj (by simp [h2, h3] <;> omega), ?_⟩
+            refine ⟨by rw [htj (by simp [h2, h3] <;> omega), rootPorts_free2 c3 c1 c2 e3 e1 h2]; rfl, ?_⟩
             rcases expected_last c3 h3 (b + 1) (some b) with ⟨last, hl, hlt⟩
             exact ⟨last, by simp [D2, e, expected]; exact hl, hlt⟩
-      have := child_phase c2 h2 (ih2 h2 n2) pre D2 nd2 3 (b + 1 + c3.size + c1.size) rest
+      have := child_phase c2 h2 (ih2 h2) pre D2 nd2 3 (b + 1 + c3.size + c1.size) rest
         (hidxnd nd2 rfl D2 hD2idx) (by simp [hb, hD2len] <;> omega) (hz _ _ _)
         (Or.inr (Or.inr ⟨rfl, h2, rfl, fun h3 => by
           have h3' : c3.isNode = true := h3
@@ -840,16 +873,16 @@ theorem process_node (p : Params) (c3 c1 c2 : Tree)
   exact P3
 
 
-theorem process_tree (T : Tree) : T.isNode = true → NoNestedJunction T → Processes T := by
+/-- EVERY tree (any nesting of chains, forks and crosses): induction over the tree in frame order. -/
+theorem process_tree (T : Tree) : T.isNode = true → Processes T := by
   induction T with
   | none => intro h; simp [Tree.isNode] at h
   | node p c3 c1 c2 ih3 ih1 ih2 =>
-    intro _ hn
-    exact process_node p c3 c1 c2 ih3 ih1 ih2 hn
+    intro _
+    exact process_node p c3 c1 c2 ih3 ih1 ih2
 
-/-- The topology part of the loop reconstructs exactly the wiring of every tree without nested
-    junctions. -/
-theorem topoLoop_tree (T : Tree) (h : T.isNode = true) (hn : NoNestedJunction T) :
+/-- The topology part of the loop reconstructs exactly the wiring of every tree. -/
+theorem topoLoop_tree (T : Tree) (h : T.isNode = true) :
     topoLoop [] (shapeOf T 0) = .ok (expected T 0 none) := by
   rw [shapeOf_node T h 0]
   have step : topoLoop [] (rootDevOf T 0 none :: kidsOf T 0)
@@ -857,7 +890,7 @@ theorem topoLoop_tree (T : Tree) (h : T.isNode = true) (hn : NoNestedJunction T)
     simp only [topoLoop, findParent_nil, assignStep, List.nil_append, List.append_nil]
     rw [rootDevOf_parent]
   rw [step]
-  have := process_tree T h hn [] [] none (by simp [Indexed])
+  have := process_tree T h [] [] none (by simp [Indexed])
   simp only [List.length_nil] at this
   rw [this]
   simp [topoLoop]
@@ -1045,15 +1078,14 @@ theorem devsOf_good (T : Tree) : ∀ b tin, NoWrap T tin → ∀ d ∈ devsOf T 
     · exact ih1 _ _ w1 d hd
     · exact ih2 _ _ w2 d hd
 
-/-- Valid trees without nested junctions and without intra-device wrap: the real loop (any build
-    mode) succeeds and its result has exactly the shape `expected`. -/
-theorem assign_tree (m : Mode) (T : Tree) (tin : Nat) (h : T.isNode = true)
-    (hn : NoNestedJunction T) (hw : NoWrap T tin) :
+/-- Valid trees of ANY shape without intra-device wrap: the real loop (any build mode) succeeds and
+    its result has exactly the shape `expected`. -/
+theorem assign_tree (m : Mode) (T : Tree) (tin : Nat) (h : T.isNode = true) (hw : NoWrap T tin) :
     ∃ out, assignParentRelationships m (mkDevs (visit T 0 tin).1) = .ok out ∧
       out.map Dev.shape = expected T 0 none := by
   have hgood := devsOf_good T 0 tin hw
   have htopo : topoLoop (([] : List Dev).map Dev.shape) ((devsOf T 0 tin).map Dev.shape) = .ok (expected T 0 none) := by
-    rw [devsOf_shape]; exact topoLoop_tree T h hn
+    rw [devsOf_shape]; exact topoLoop_tree T h
   have hopen : ∀ d ∈ mkDevs (visit T 0 tin).1, 1 ≤ d.ports.openPorts := fun d hd => (hgood d hd).1.1
   rw [assign_eq_loop m _ hopen]
   exact assignLoop_of_topo m (devsOf T 0 tin) [] 0 (expected T 0 none) (by simp) hgood htopo
